@@ -281,6 +281,7 @@ class ModuleVal:
         self.ns = {}
         self.lazy = {}       # name -> thunk
         self.loading = set()
+        self.registrations = {}
         self.external = external
         self.is_pkg = False
 
